@@ -45,6 +45,10 @@ pub struct FacCase {
     pub leaves: Vec<LeafScript>,
     pub cfg: u32,
     pub reqs: Vec<u32>,
+    /// the factory value is dropped right after the last `new_service` call, before the returned
+    /// future is driven (a factory used as a temporary)
+    #[serde(default)]
+    pub drop_factory_early: bool,
 }
 
 const MAX_ROUNDS: u32 = 64;
@@ -240,6 +244,7 @@ fn check_svc_inner(mode: Mode, c: &SvcCase) -> CaseResult {
     let mut ids = Ids { leaf: 0, node: 0 };
     assign_t(&mut tree, &mut ids);
     let w = World::new(c.leaves.clone(), ids.leaf);
+    w.permits.set(mode == Mode::Functional);
     let svc = build_t(&tree, &w);
     let mut st = Stats { saw_pending_ready: false, saw_pending_fut: false, saw_err: false, saw_ready_err: false };
     let mut ref_calls = vec![];
@@ -252,6 +257,7 @@ fn check_svc_inner(mode: Mode, c: &SvcCase) -> CaseResult {
         Mode::Contract => obs.nontrivial = (nl >= 2 && st.saw_pending_ready) || st.saw_pending_fut,
     }
     obs.label_if(has_and_then_t(&tree), "and_then");
+    obs.label_if(w.permit_used.get() == (true, true), "coupled-stages");
     obs.label_if(st.saw_pending_ready, "pending-readiness");
     obs.label_if(st.saw_pending_fut, "pending-future");
     obs.label_if(st.saw_err, "call-error");
@@ -272,7 +278,7 @@ fn check_fac_inner(mode: Mode, c: &FacCase) -> CaseResult {
     let mut ids = Ids { leaf: 0, node: 0 };
     assign_f(&mut tree, &mut ids);
     let w = World::new(c.leaves.clone(), ids.leaf);
-    let fac = build_f(&tree, &w);
+    let mut fac = Some(build_f(&tree, &w));
     let mut st = Stats { saw_pending_ready: false, saw_pending_fut: false, saw_err: false, saw_ready_err: false };
     let mut obs = Obs::new();
     let mut ref_calls = vec![];
@@ -283,7 +289,16 @@ fn check_fac_inner(mode: Mode, c: &FacCase) -> CaseResult {
         let log_start = w.log.borrow().len();
         let futs_start = w.futs.borrow().len();
         let start_round = w.round.get();
-        let mut fut: BF<Result<H, u32>> = fac.new_service(c.cfg);
+        // the second (last) build: the factory expression is a temporary that is gone while its
+        // new_service future runs
+        let mut fut: BF<Result<H, u32>> = if build == 1 && c.drop_factory_early {
+            let f = fac.take().unwrap();
+            let fut = f.new_service(c.cfg);
+            drop(f);
+            fut
+        } else {
+            fac.as_ref().unwrap().new_service(c.cfg)
+        };
         let res = drive_fut(mode, &w, &mut fut, &format!("new_service future (build {})", build), &mut st)?;
         drop(fut);
         let log: Vec<Ev> = w.log.borrow()[log_start..].to_vec();
@@ -316,6 +331,12 @@ fn check_fac_inner(mode: Mode, c: &FacCase) -> CaseResult {
                         vensure!(*deps_ready, "C11/cfg-before-ready", "build {}: apply_cfg_factory configured the service before it reported ready", build);
                     }
                 }
+            } else if let Some(Ev::CfgFn { deps_ready, .. }) = evs.first() {
+                // the readiness wait inside the factory future: an inner readiness error (or a
+                // still pending inner service) must not be taken for ready
+                let states: Vec<RState> = w.leaves.borrow().iter().map(|l| l.ready).collect();
+                vensure!(*deps_ready, "C12/cfg-before-ready",
+                    "build {}: apply_cfg_factory took the freshly built service for ready and configured it although an inner service had not reported ready (leaf readiness states {:?})", build, states);
             }
         }
         // failing candidates: (fail round, mapped error)
@@ -367,6 +388,8 @@ fn check_fac_inner(mode: Mode, c: &FacCase) -> CaseResult {
         Mode::Contract => obs.nontrivial = st.saw_pending_fut || st.saw_pending_ready,
     }
     obs.label_if(is_chain_f(&tree), "factory-chain");
+    obs.label_if(c.drop_factory_early && fac.is_none(), "factory-dropped-during-init");
+    obs.label_if(c.drop_factory_early && fac.is_none() && has_transform_f(&tree), "transform-factory-dropped-during-init");
     obs.label_if(init_failed, "init-error");
     obs.label_if(st.saw_pending_fut, "pending-future");
     obs.label_if(st.saw_pending_ready, "pending-readiness");
@@ -461,7 +484,7 @@ fn leaf_script() -> impl Strategy<Value = LeafScript> {
         0..4,
     );
     let init = prop::option::weighted(0.7, (prop_oneof![2 => Just(0u8), 2 => 1u8..3], prop_oneof![5 => Just(InitOut::Ok), 1 => (200u32..220).prop_map(InitOut::Err)]));
-    (ready, calls, init).prop_map(|(ready, calls, init)| LeafScript { ready, calls, init })
+    (ready, calls, init, prop_oneof![6 => Just(0u8), 2 => Just(1u8), 2 => Just(2u8)]).prop_map(|(ready, calls, init, permit)| LeafScript { ready, calls, init, permit })
 }
 
 pub fn svc_strategy() -> impl Strategy<Value = SvcCase> {
@@ -470,11 +493,11 @@ pub fn svc_strategy() -> impl Strategy<Value = SvcCase> {
 }
 
 pub fn fac_strategy() -> impl Strategy<Value = FacCase> {
-    (f_strategy(), prop::collection::vec(leaf_script(), 0..12), 0u32..6, prop::collection::vec(0u32..8, 1..3))
-        .prop_map(|(tree, leaves, cfg, reqs)| FacCase { tree, leaves, cfg, reqs })
+    (f_strategy(), prop::collection::vec(leaf_script(), 0..12), 0u32..6, prop::collection::vec(0u32..8, 1..3), any::<bool>())
+        .prop_map(|(tree, leaves, cfg, reqs, drop_factory_early)| FacCase { tree, leaves, cfg, reqs, drop_factory_early })
 }
 
-const RULE_11: &str = "random combinator expression trees (depth <= 3 recursion levels; and_then, map, map_err, apply_fn in 4 modes, boxed::service, rc_service, Rc, Box, RefCell, & wrappers, fn_service; factory forms: and_then, map, map_err, map_init_err, map_config, unit_config, apply_fn_factory, apply(Transform), apply_cfg, apply_cfg_factory, boxed::factory, Rc, fn_factory, fn_factory_with_config) over scripted leaves (call: 0..2 Pending then Ok(f(req))/Err(g(req)); init: 0..2 Pending then Ok/InitErr), 1-3 requests, each factory built twice; result and exact sequential log of leaf calls and mapper applications compared with a reference interpreter; factories: each item created once with the mapped config, first init error in time (ties accepted), produced service judged by the service oracle; non-trivial = depth >= 2 with and_then / a factory chain and a Pending or Err leaf";
+const RULE_11: &str = "random combinator expression trees (depth <= 3 recursion levels; and_then, map, map_err, apply_fn in 4 modes, boxed::service, rc_service, Rc, Box, RefCell, & wrappers, fn_service; factory forms: and_then, map, map_err, map_init_err, map_config, unit_config, apply_fn_factory, apply(Transform), apply_cfg, apply_cfg_factory, boxed::factory, Rc, fn_factory, fn_factory_with_config) over scripted leaves (call: 0..2 Pending then Ok(f(req))/Err(g(req)); init: 0..2 Pending then Ok/InitErr; call futures optionally coupled through one shared permit that a 'hold' future owns from creation to drop and a 'need' future cannot progress without; a transform's construction future fails if the transform object is dropped while it runs), 1-3 requests, each factory built twice, in half of the cases the factory value is dropped right after the last new_service call; result and exact sequential log of leaf calls and mapper applications compared with a reference interpreter; factories: each item created once with the mapped config, first init error in time (ties accepted), produced service judged by the service oracle; non-trivial = depth >= 2 with and_then / a factory chain and a Pending or Err leaf";
 const RULE_12: &str = "same trees; leaves are state-based (Pending/Ready/Err changed between composite polls by the driver, waking stored wakers); executor with a fresh waker per poll that re-polls only after a wake-up; poll_ready: Ready(Ok) only if all leaves ready, Err must be a (mapped) leaf error, Pending only if a leaf is pending and every pending leaf was polled with the current waker; futures: no poll after completion, Pending only while an inner future (or readiness wait) is pending and polled with the current waker, wake-through, no stage invoked twice; non-trivial = >= 2 leaves with a pending readiness, or a pending inner future";
 
 pub fn run_c11(ctx: &Ctx) {
@@ -482,12 +505,12 @@ pub fn run_c11(ctx: &Ctx) {
     ctx.run_corpus::<SvcCase>("svc", |c| check_svc(Mode::Functional, c));
     ctx.run_corpus::<FacCase>("fac", |c| check_fac(Mode::Functional, c));
     ctx.run_random(
-        Part::new("svc", RULE_11, ctx.tier.scale(300_000, 10)).floors(&[("and_then", 0.4), ("pending-future", 0.3), ("call-error", 0.2), ("depth>=3", 0.1)]),
+        Part::new("svc", RULE_11, ctx.tier.scale(300_000, 10)).floors(&[("and_then", 0.4), ("pending-future", 0.3), ("call-error", 0.2), ("depth>=3", 0.1), ("coupled-stages", 0.015)]),
         svc_strategy,
         |c| check_svc(Mode::Functional, c),
     );
     ctx.run_random(
-        Part::new("fac", RULE_11, ctx.tier.scale(300_000, 10)).floors(&[("factory-chain", 0.4), ("pending-future", 0.3), ("init-error", 0.1), ("depth>=3", 0.1)]),
+        Part::new("fac", RULE_11, ctx.tier.scale(300_000, 10)).floors(&[("factory-chain", 0.4), ("pending-future", 0.3), ("init-error", 0.1), ("depth>=3", 0.1), ("transform-factory-dropped-during-init", 0.05)]),
         fac_strategy,
         |c| check_fac(Mode::Functional, c),
     );
